@@ -326,11 +326,25 @@ theorem string_decode for literals with `\uXXXX` / `\u{…}` escapes and for blo
   -- `specEscape` never writes `\u` escapes (every character has a plain or two-character form), so `string_decode`
   -- covers every string VALUE but not every string LITERAL; block strings are returned raw (open finding t).
 theorem parse_render : ∀ A τ, parseModel (render A τ) = A      -- the full document language
-  -- proved sub-languages: `Type` (`render_parse_type`, canonical rendering), string literals (`string_decode`), `Value`,
-  -- `Arguments`, `Directives` (arbitrary trivia). NOT proved: fields / selection sets / variable definitions / operations /
-  -- fragments / type-system definitions (the lemmas `render_parse_value_at`, `string_decode_at`, `TypeRunsAt`,
-  -- `arguments_runs`, `directives_runs` are in the embedded form those need). Established by K (model = code, 0 disagreements on every generated text, canonical and
-  -- noisy) + O (code = A, structure and positions) in harness/src/bin/c07.rs.
+  -- PROVED for EXECUTABLE documents without `#import` lines: `Props/C07Doc.lean` `parse_render_operation_document`
+  -- (+ `_erase`): for every non-empty list of well-formed operations / fragments, every trivia assignment and every choice of
+  -- the `{ … }` shorthand, `parseOp (rDoc τ sh doc) = .ok (wpDoc …)` — the model of `parse_operation_document` (generated
+  -- grammar, model's own depth bounds, `validate_unicode_escapes`, builders) returns the document with the true position of
+  -- every token; and the levels below it: `render_parse_selection`, `render_parse_selection_set`, `render_parse_type_trivia`,
+  -- `render_parse_variable_definition`, `render_parse_executable_definition`.
+  -- Explicit side conditions of those theorems (all decidable): names are valid names, a fragment / spread name is not `on`,
+  -- selection sets are non-empty, values / types are the well-formed ones of the earlier levels; every gap is `Ws` (so: no
+  -- comment whose text begins with `import`, no unterminated comment at the very end of the input); string literals are
+  -- rendered with `specEscape` (no `\u` escapes, no block strings — open finding t: returned raw); between two selections
+  -- (and after `fragment` / its name / `on` / an operation keyword followed by a name) the gap is non-empty.
+  -- NOT proved: (1) `#import` lines (`ext_ImportStatement`): the implicit skip in front of one stops because `COMMENT`'s
+  -- negative lookahead `!ext_ImportStatementContent` SUCCEEDS in matching the import — that needs the whole calculus
+  -- (`RunsK`, the skip lemmas) under negative lookahead, which is only available for lookahead state `.none`;
+  -- (2) TYPE-SYSTEM documents (`parse_render_type_system_document`): ScalarTypeDefinition … InputObjectTypeDefinition,
+  -- extensions, DirectiveDefinition, SchemaDefinition, descriptions — the leaves they need (`Type` with trivia, default
+  -- values, directives, string literals, the generic list / `parts!` lemmas of `Lemmas/ParseDocBase.lean`) are in place.
+  -- Both remain established by K (model = code, 0 disagreements on every generated text, canonical and noisy) + O
+  -- (code = A, structure and positions) in harness/src/bin/c07.rs.
 -/
 
 end NitroVerif.C07
